@@ -348,11 +348,27 @@ Definition spec_orfs (se : Z * Z) (wrapped : bool) (orfs : list orf) : bool :=
   forallb (fun o => ((if wrapped then fst se + 1 else fst se) <=? o_start o)
                     && (o_start o <=? o_end o + 1) && (o_end o <=? snd se)) orfs.
 
-(* finding class: a gene that does not cross the origin but has exons in both parts of a wrapped region
-   (its introns cover the gap the region leaves on the ring) *)
+(* the parts that carry Feature.start / Feature.end *)
+Definition start_part (l : loc) : part := if lstrand l =? -1 then last_part l else first_part l.
+Definition end_part (l : loc) : part := if lstrand l =? -1 then first_part l else last_part l.
+
+(* guard of the gene clause (finding gene_across_region_gap): the gene does not straddle the gap that an
+   origin-crossing region leaves on the ring - a gene that does not cross the origin lies in one of the two
+   parts of the region, a gene that does has its first exon before and its last exon after the origin *)
+Definition gene_guard (rloc g : loc) : bool :=
+  negb (bridges rloc) ||
+  (if bridges g then contains [first_part rloc] [start_part g] && contains [last_part rloc] [end_part g]
+   else contains [first_part rloc] g || contains [last_part rloc] g).
+
+(* finding class: some gene has exons on both sides of the gap (its introns cover the gap) *)
 Definition class_gene_gap (rloc : loc) (genes : list loc) : bool :=
-  bridges rloc &&
-  existsb (fun g => negb (bridges g) && negb (contains [first_part rloc] g) && negb (contains [last_part rloc] g)) genes.
+  existsb (fun g => negb (gene_guard rloc g)) genes.
+
+(* finding class gene_long_way_round: a gene that "crosses the origin" by the order of its exons inside a
+   region that neither crosses the origin nor covers the whole record (no exon can touch the origin there: the
+   gene runs the long way round the ring); it is split at the record ends, outside the region *)
+Definition class_gene_long_way (rloc : loc) (n : Z) (genes : list loc) : bool :=
+  negb (bridges rloc) && negb ((lstart rloc =? 0) && (lend rloc =? n)) && existsb bridges genes.
 
 (* ---------- encoding ---------- *)
 Definition dFeat : dec feat := fun l =>
@@ -440,12 +456,13 @@ Definition run_C19 (fn : Z) (l : list Z) : list Z :=
     match dPair dRegion (dList dLoc) l with
     | Some ((n, circ, rloc, subs, cands, protos, genes), out) =>
       match dResHead out with
-      | Some (Some _, []) => [1; 1; 1; 1; 1; 1; 1; 0]
+      | Some (Some _, []) => [1; 1; 1; 1; 1; 1; 1; 0; 0]
       | Some (None, s :: e :: r) =>
         match dPair (dList dOrf) (dList dArea) r with
         | Some ((orfs, areas), []) =>
           spec_areas rloc n circ subs cands (unique_protoclusters rloc protos) areas
           ++ eBool (spec_orfs (s, e) (bridges rloc) orfs) ++ eBool (class_gene_gap rloc genes)
+          ++ eBool (class_gene_long_way rloc n genes)
         | _ => bad_input end
       | _ => bad_input end
     | _ => bad_input end
